@@ -220,12 +220,11 @@ def r14_3_4_shared(chk):
     # R14.3 via the structural part of C02 (no BytesAI needed)
     meta = chk.ix.get_class("LRMeta")
     prop = meta.lookup("lr_type_struct")
-    recv = prop.param_names[0]
-    stores = [n for n in walk_local(prop.node) if isinstance(n, ast.Assign)
-              and any(isinstance(t, ast.Attribute) for t in n.targets)]
-    ok = bool(stores) and all(isinstance(t.value, ast.Name) and t.value.id == recv
-                              for n in stores for t in n.targets if isinstance(t, ast.Attribute)) \
-        and all(f"{recv}.logical_record_type" in norm(n.value) for n in stores)
+    from ..terms import A as _A, contains as _contains
+    psum = chk.summary(prop)
+    recv = ("param", prop.param_names[0])
+    sts = [e for e in psum.effects if e.kind == "store_attr"]
+    ok = bool(sts) and all(e.base == recv and _contains(e.value, _A(recv, "logical_record_type")) for e in sts)
     chk.require(ok, "R14.3", "type-byte-memo-per-class",
                 "the memoised record-type byte is not stored on / computed from the receiving class itself", prop.where)
 
